@@ -197,6 +197,91 @@ def count_choices(prog):
     return n
 
 
+def graph_program(rng, evidence=True, negation=True):
+    """Second profile: a small (partly certain) graph with edges e/2 over {a, b}, path/2 by left- or
+    right-recursion, rules with repeated variables (loop :- e(X,X)) next to rules with distinct ones
+    (any :- e(X,Y)), certain facts, several queries on members of the same cycle, evidence also on
+    deterministically true/false atoms.  Stratified (negation only on e/2 and on certain facts)."""
+    prog = []
+    edges = [(x, y) for x in CONSTS for y in CONSTS]
+    rng.shuffle(edges)
+    nprob = 0
+    for (x, y) in edges[:rng.randint(2, 4)]:
+        if rng.random() < 0.3:
+            prog.append(("rule", ("e", (x, y)), []))                     # certain edge
+        else:
+            prog.append(("fact", rng.choice(PROBS), ("e", (x, y))))
+            nprob += 1
+    if nprob == 0:
+        prog.append(("fact", rng.choice(PROBS), ("e", ("a", "b"))))
+    prog.append(("fact", rng.choice(PROBS), ("f", ())))
+    if rng.random() < 0.5:
+        prog.append(("rule", ("t", ()), []))                              # deterministically true atom
+    rules = []
+    if rng.random() < 0.5:
+        rules.append(("rule", ("path", ("X", "Y")), [(True, ("e", ("X", "Y")))]))
+        rules.append(("rule", ("path", ("X", "Y")), [(True, ("e", ("X", "Z"))), (True, ("path", ("Z", "Y")))]))
+    else:
+        rules.append(("rule", ("path", ("X", "Y")), [(True, ("path", ("X", "Z"))), (True, ("e", ("Z", "Y")))]))
+        rules.append(("rule", ("path", ("X", "Y")), [(True, ("e", ("X", "Y")))]))
+    rules.append(("rule", ("loop", ()), [(True, ("e", ("X", "X")))]))
+    rules.append(("rule", ("any", ()), [(True, ("e", ("X", "Y")))]))
+    # mutually recursive 0-ary predicates on one cycle, each with an exit
+    rules.append(("rule", ("m1", ()), [(True, ("m2", ()))]))
+    rules.append(("rule", ("m1", ()), [(True, ("f", ()))]))
+    rules.append(("rule", ("m2", ()), [(True, ("m1", ())), (True, ("e", (rng.choice(CONSTS), rng.choice(CONSTS))))]))
+    rules.append(("rule", ("m2", ()), [(True, ("path", ("a", "b")))]))
+    if negation and rng.random() < 0.6:
+        rules.append(("rule", ("n", ()), [(False, ("e", (rng.choice(CONSTS), rng.choice(CONSTS))))]))
+        rules.append(("rule", ("n2", ()), [(True, ("f", ())), (False, ("n", ()))]))
+    if any(s[0] == "rule" and s[1] == ("t", ()) for s in prog):
+        rules.append(("rule", ("w", ()), [(True, ("f", ())), (True, ("t", ()))]))
+    rng.shuffle(rules)
+    prog += rules
+    defined = sorted(set((s[1][0], len(s[1][1])) for s in prog if s[0] == "rule" and s[1][0] != "e"))
+    qs = rng.sample(defined, min(len(defined), rng.randint(1, 3)))
+    for qp, qar in qs:
+        if qar == 2:
+            prog.append(("query", (qp, (rng.choice(CONSTS + ["_"]), rng.choice(CONSTS)))))
+        else:
+            prog.append(("query", (qp, ())))
+    if evidence and rng.random() < 0.5:
+        ep, ear = rng.choice(defined + [("e", 2)])
+        args = tuple(rng.choice(CONSTS) for _ in range(ear))
+        prog.append(("evidence", (ep, args), rng.random() < 0.6))
+    return prog
+
+
+def cycle_program(rng, evidence=True):
+    """Third profile: three or four mutually recursive nullary predicates with interlocking positive cycles
+    (1-3 clauses each, bodies of 1-2 literals over the predicates and 3-4 probabilistic facts), several of
+    them queried; optionally two evidence statements."""
+    prog = []
+    nf = rng.randint(3, 4)
+    facts = [("f%d" % i, ()) for i in range(nf)]
+    for a in facts:
+        prog.append(("fact", rng.choice(PROBS), a))
+    k = rng.randint(3, 4)
+    preds = [("c%d" % i, ()) for i in range(k)]
+    rules = []
+    for i, p in enumerate(preds):
+        for _ in range(rng.randint(1, 3)):
+            body = []
+            for _ in range(rng.randint(1, 2)):
+                body.append((True, rng.choice(preds) if rng.random() < 0.6 else rng.choice(facts)))
+            rules.append(("rule", p, body))
+        if rng.random() < 0.7:
+            rules.append(("rule", p, [(True, rng.choice(facts))]))      # an exit from the cycle
+    rng.shuffle(rules)
+    prog += rules
+    for q in rng.sample(preds, rng.randint(2, min(3, k))):
+        prog.append(("query", q))
+    if evidence:
+        for _ in range(rng.choice([0, 0, 1, 2])):
+            prog.append(("evidence", rng.choice(preds + facts), rng.random() < 0.5))
+    return prog
+
+
 def programs(seed, n, **kw):
     rng = random.Random(seed)
     g = Gen(rng, **kw)
@@ -204,7 +289,13 @@ def programs(seed, n, **kw):
     tries = 0
     while len(out) < n and tries < n * 20:
         tries += 1
-        p = g.program()
+        r = rng.random()
+        if not g.neg_cycles and g.recursion and r < 0.25:
+            p = graph_program(rng, evidence=g.evidence, negation=g.negation)
+        elif not g.neg_cycles and g.recursion and r < 0.4:
+            p = cycle_program(rng, evidence=g.evidence)
+        else:
+            p = g.program()
         if count_choices(p) <= g.max_choices:
             out.append(p)
     return out
